@@ -231,9 +231,9 @@ def rule_k6(chk: Check, F, ix: Index, thorough: bool):
         chk.require(not bad and not off, "K6-continuation", "in_continued_string", f.where,
                     f"a one-quote string continues on the next line exactly when a string is open and its line ends in an unescaped backslash "
                     f"(an odd number of them) + LF or CRLF; the test gives (line, answer) {bad or 'True with no open string'}")
-    # the "line goes on" flag is consumed by the line it was set for: whenever the line loop takes neither the open-string
-    # branch nor the new-statement branch, it clears the flag (or raises) before scanning the line — otherwise the next
-    # logical line skips indentation handling
+    # the "line goes on" flag is consumed by the line it was set for: whenever the line loop does not take the new-statement
+    # branch, it clears the flag (or raises) before scanning the line — otherwise the next logical line skips indentation
+    # handling (`if x:⏎    f'{a +\⏎ b}'⏎y` put `y` inside the block)
     from ..pyflow import stmt_paths
     tk = ix.get("_tokenize")
     outer = [n for n in tk.node.body if isinstance(n, ast.While) and isinstance(n.test, ast.Constant) and n.test.value is True]
@@ -248,8 +248,8 @@ def rule_k6(chk: Check, F, ix: Index, thorough: bool):
             for pth in stmt_paths([dispatch[0]]):
                 conds = {x[1]: x[2] for x in pth if x[0] == "cond"}
                 effects = [x[1] for x in pth if x[0] == "do"]
-                if conds.get("state.end_progs") is not False:
-                    continue  # an open string: its own branch (lines are joined there)
+                # (an open string or f-string takes its own branch; a backslash continuation inside the braces of an f-string sets
+                # the flag too, so that branch consumes it like the others)
                 if any("next_statement(" in e for e in effects):
                     continue  # a new logical line: indentation is handled
                 if pth[-1][1] in ("raise", "break", "continue", "return"):
